@@ -229,6 +229,12 @@ CLAIMED["C39"] = _simple(["ApiLevels", "ApiLevels_Trace"],
     "Trusted: identification of loaded data by file content, TLC.",
     "TLA+ fallback definition + loader action model-checked with TLC; every request replayed; loaded level validated by a TLA+ trace spec", "4/C39")
 
+try:                                    # later batches live in their own module
+    from . import registry2 as _r2
+    CLAIMED.update(_r2.CLAIMED)
+except ImportError:
+    pass
+
 NOT_YET = "check not built yet in this session (planned in DESIGN.md section 4)"
 
 
